@@ -1070,12 +1070,40 @@ fn batch_for(seed: u64, case: u64) -> (Vec<ReplicationDelta>, usize, bool) {
     (ds, kind, big)
 }
 
+/// Very large updates (a server value may be up to 512 MB; a hash may have tens of thousands of fields):
+/// an encoder and its decoder must agree on what sizes exist.
+const GIANTS: [(&str, usize); 7] = [("lww", 1 << 20), ("lww", (1 << 20) - 100), ("lww", (1 << 20) + 1), ("lww", 3 * (1 << 20) + 7), ("lww", 17 << 20), ("hash", 30_000), ("hash", 120_000)];
+
+fn giant_batch(shape: &str, size: usize) -> Vec<ReplicationDelta> {
+    let stamp = |t: u64| LamportClock { time: t, replica_id: ReplicaId(3) };
+    let crdt = if shape == "lww" {
+        let blob: Vec<u8> = (0..size).map(|i| (i as u32).wrapping_mul(2654435761).to_le_bytes()[1]).collect();
+        CrdtValue::Lww(LwwRegister::with_value(SDS::new(blob), stamp(9)))
+    } else {
+        let mut h = HashMap::new();
+        for i in 0..size {
+            h.insert(format!("field:{}", i), LwwRegister::with_value(SDS::new(format!("value-{}", i).into_bytes()), stamp(1 + (i as u64 % 7))));
+        }
+        CrdtValue::Hash(h)
+    };
+    let mut v = g_value(&mut rng_from(1, 1), 0, false, true);
+    v.crdt = crdt;
+    v.timestamp = stamp(9);
+    vec![
+        ReplicationDelta::new("before".to_string(), g_value(&mut rng_from(1, 2), 0, false, true), ReplicaId(3)),
+        ReplicationDelta::new("giant".to_string(), v, ReplicaId(3)),
+        ReplicationDelta::new("after".to_string(), g_value(&mut rng_from(1, 3), 0, false, true), ReplicaId(3)),
+    ]
+}
+
 pub fn codec_leg(args: &Args) {
     let mut rep = Report::new("C14", "codec");
     let px = Pipes { seg: ObjPipe::new(false), chk: ObjPipe::new(true), memo: Memo::default() };
     if let Some(p) = &args.replay {
         let w = load_witness(p);
-        if w["leg"] == "mutant" {
+        if w["leg"] == "giant" {
+            roundtrip(&mut rep, &px, &giant_batch(w["shape"].as_str().unwrap_or("lww"), w["size"].as_u64().unwrap_or(1 << 20) as usize), "giant", &w);
+        } else if w["leg"] == "mutant" {
             let mu = w.get("mut").map(Mutn::from_json);
             mutate_image(&mut rep, &px, w["target"].as_str().unwrap_or("wal"), &unhex(w["image"].as_str().unwrap_or("")), &mut rng_from(1, 1), mu.as_ref());
         } else {
@@ -1110,6 +1138,21 @@ pub fn codec_leg(args: &Args) {
         if rep.samples.len() < 3 {
             rep.sample(json!({"kind": KINDS[kind], "batch": ds.len(), "first": pi_delta(&ds[0]), "segment_bytes": seg_image(&ds).map(|i| i.len()).ok()}));
         }
+    }
+    // giants: spread over the shards; the quick tier stops at 3 MiB
+    for (i, (shape, size)) in GIANTS.iter().enumerate() {
+        // quick tier: one string just above 1 MiB and one 30k-field hash
+        if args.thorough() && i % args.shards != args.shard {
+            continue;
+        }
+        if !args.thorough() && !((i == 2 && args.shard == 0) || (i == 5 && args.shard == args.shards - 1)) {
+            continue;
+        }
+        rep.evaluations += 1;
+        rep.count(&format!("giants:{}", shape));
+        rep.max("giant_size", *size as u64);
+        rep.distinct(&("giant", shape, size));
+        roundtrip(&mut rep, &px, &giant_batch(shape, *size), "giant", &json!({"leg": "giant", "shape": shape, "size": size}));
     }
     for k in KINDS {
         if !rep.counters.contains_key(&format!("values:{}", k)) {
